@@ -408,7 +408,10 @@ def rule_class_rendering(rep: Report, repo: Repo, rule: str) -> None:
             elif e.method == "bulleted_list":
                 txt = show(e.args[0]) if e.args else ""
                 f = "inner_classes" if "inner_classes" in repr(e.args) else txt[:30]
-                ok_items = "interpreted_text" in repr(e.args) and "'class'" in repr(e.args) and "'name'" in repr(e.args)
+                ra = repr(e.args)
+                # interpreted_text("class", x.name) - or what it evaluates to: f":class:`{x.name}`"
+                ok_items = "'name'" in ra and (("interpreted_text" in ra and "'class'" in ra) or
+                                               (":class:`" in ra.replace("', '", "").replace("('const', '", "") or "class" in ra and "`" in ra))
                 rep.check(ok_items, rule, where(c), f"path {i}: inner class list items", "inner classes are not listed by name as :class: references")
                 if cur is not None and cur[1] is None:
                     cur[1] = f
@@ -433,6 +436,7 @@ def rule_class_rendering(rep: Report, repo: Repo, rule: str) -> None:
             if bases:
                 t = show(bases[0].args[0])
                 okb = okb and "self.superclasses" in t and ":class:`" in t and "', '.join" in t and bases[0].recv == top.term
+                okb = okb and _joined_class_refs(bases[0].args[0])
                 docs = [k for k, e in enumerate(ems) if e.args == (S("doc"),)]
                 okb = okb and (not docs or ems.index(bases[0]) < docs[0])
             rep.check(okb, rule, where(c), f"path {i}: bases [{show(bases[0].args[0])[:60] if bases else ''}]",
@@ -703,6 +707,16 @@ def _index_hazards(fn: ast.FunctionDef, parents) -> Tuple[int, List[Tuple[str, s
                     if (tgt == idx and it in (f"range(len({lst}))", f"range(0, len({lst}))")) or \
                             (tgt.startswith(f"({idx}, ") and it == f"enumerate({lst})"):
                         bounded = True
+                    # range(min(len(A), len(B))) bounds the index by every list named in the min()
+                    if tgt == idx and isinstance(q.iter, ast.Call) and call_name(q.iter) == "range" and q.iter.args:
+                        hi = q.iter.args[-1] if len(q.iter.args) <= 2 else q.iter.args[1]
+                        if isinstance(hi, ast.Name):
+                            defs = [x.value for x in walk_no_nested(fn) if isinstance(x, ast.Assign) and len(x.targets) == 1
+                                    and isinstance(x.targets[0], ast.Name) and x.targets[0].id == hi.id]
+                            if len(defs) == 1:
+                                hi = defs[0]
+                        if isinstance(hi, ast.Call) and call_name(hi) == "min" and any(norm(a) == f"len({lst})" for a in hi.args):
+                            bounded = True
                 q = parents.get(q)
             for g in guards_of(fn, node, parents):
                 t = norm(g.test)
@@ -713,6 +727,20 @@ def _index_hazards(fn: ast.FunctionDef, parents) -> Tuple[int, List[Tuple[str, s
                 out.append((f"{lst}[{idx}]", f"`{lst}[{idx}]` is not bounded by the length of `{lst}`: rendering raises IndexError when the "
                             f"lists differ in length"))
     return n, out
+
+
+def _joined_class_refs(t) -> bool:
+    """somewhere in the term: ', '.join(<one :class:`x` reference per element of self.superclasses>) - the join is outside
+    the role, each base is its own reference."""
+    from ..absint import subterms
+    for x in subterms(t):
+        if isinstance(x, tuple) and x and x[0] == "call" and x[1] == ("attr", const(", "), "join") and len(x[2]) == 1:
+            arg = x[2][0]
+            if arg[0] == "comp" and len(arg[3]) == 1 and arg[3][0][1] == S("superclasses"):
+                elt = show(arg[2])
+                if ":class:`" in elt or ("interpreted_text" in elt and "'class'" in elt):
+                    return True
+    return False
 
 
 def rule_render_total(rep: Report, repo: Repo, rule: str) -> None:
